@@ -499,11 +499,18 @@ def run_target(rec, fa, tname, rnd, ngen, with_format):
                 progs.append((f"shipped:{fname}:{','.join(sig)}", ("shipped", fname, sig)))
     for label, fn, sig in unit_programs(target):
         progs.append((f"unit:{label}", ("fn", fn, sig)))
+        # the algebraic rewriter canonicalises e.g. select(a >= b, ..) to select(a < b, ..): print the raw kinds as well
+        progs.append((f"unit-norewrite:{label}", ("fn-norewrite", fn, sig)))
+    for cmpk in ("lt", "le", "gt", "ge", "eq", "ne"):
+        progs.append((f"unit:cmp-inside-logical:{cmpk}", ("fn", (lambda ctx, a, b, cmpk=cmpk: ctx.select(ctx.logical_and(getattr(ctx, cmpk)(a, b), getattr(ctx, cmpk)(b + a, a + a)), a - b, b / a)), ["float", "float"])))
+        progs.append((f"unit:cmp-referenced-twice:{cmpk}", ("fn", (lambda ctx, a, b, cmpk=cmpk: (lambda c: ctx.select(c, a, b) + ctx.select(ctx.logical_not(c), a * a, b * b))(getattr(ctx, cmpk)(a, b))), ["float", "float"])))
     kinds = [k for k, v in target.kind_to_target.items() if v is not NotImplemented]
     pg = ProgGen(rnd, ["float"], ["complex"], kinds + ["square", "hypot"], [0, 1, 2, -1, 0.5, 1.5, 3, 0.1, -0.0, 2.0, 1e-3, 1e10], ["pi", "largest", "smallest", "posinf", "neginf"])
     for i in range(ngen):
         fn, sig = pg.make()
         progs.append((f"gen:{i}", ("fn", fn, sig)))
+        if i % 3 == 0:
+            progs.append((f"gen-norewrite:{i}", ("fn-norewrite", fn, sig)))
     saved_path = os.environ.get("PATH", "")
     for idx, (label, spec) in enumerate(progs):
         name = f"p{idx}"
@@ -518,12 +525,13 @@ def run_target(rec, fa, tname, rnd, ngen, with_format):
                         ns = {}
                         exec("def %s(ctx, %s):\n    return _fn(ctx, %s)\n" % (name, ", ".join("abc"[: len(spec[2])]), ", ".join("abc"[: len(spec[2])])), dict(_fn=spec[1]), ns)
                         ctx = fa.Context(paths=[fa.algorithms], enable_alt=alt, default_constant_type="FloatType" if alt else None)
-                        g = ctx.trace(ns[name], *[f":{s}" for s in spec[2]]).rewrite(target, rewrite)
+                        g = ctx.trace(ns[name], *[f":{s}" for s in spec[2]])
+                        g = g.rewrite(target) if spec[0] == "fn-norewrite" else g.rewrite(target, rewrite)
         except NotImplementedError:
             rec.count(f"refused:{tname}:trace")
             continue
         except (AssertionError, TypeError, KeyError, AttributeError, ValueError, RuntimeError) as e:
-            if spec[0] == "fn":
+            if spec[0] in ("fn", "fn-norewrite"):
                 rec.count(f"generator-refused:{tname}:{type(e).__name__}")
                 continue
             rec.violation(f"{tname}:trace-raises", dict(program=label, exc=f"{type(e).__name__}: {e}"[:300]))
